@@ -28,7 +28,8 @@
 (* time.After at exact equality is a measure-zero case no real clock can drive.)                  *)
 (*                                                                                            *)
 (* Property level (ghosts, independent of the code's bookkeeping):                              *)
-(*   pf[ip]    times of the failed authentications since the last success                        *)
+(*   pf[ip]    times of the failed authentications since the last success that are still inside   *)
+(*             the window (older ones can never count again)                                      *)
 (*   ptot[ip]  their number as a lifetime count (the record - and with it the count - is         *)
 (*             dropped on success and when a clean-up finds its window empty: the reading         *)
 (*             of "permanent threshold" taken in DESIGN.md 5/C18)                                *)
@@ -155,8 +156,8 @@ HsCred(p) ==
           LET fl   == InWin(Append(fails[i], clock))
               tot  == total[i] + 1
               dec  == IF tot >= PermAt THEN "perm" ELSE IF Len(fl) >= Threshold THEN "temp" ELSE "none"
-              npf  == Append(pf[i], clock)
-              cnt  == Len(InWin(npf))
+              npf  == InWin(Append(pf[i], clock))
+              cnt  == Len(npf)
               ntot == ptot[i] + 1
           IN /\ total[i] < MaxTotal
              /\ fails' = [fails EXCEPT ![i] = fl] /\ total' = [total EXCEPT ![i] = tot]
@@ -277,8 +278,9 @@ SetWl(i, on) ==
 Tick ==
   /\ "Tick" \in Acts /\ Free /\ clock < MaxClock
   /\ clock' = clock + 1
+  /\ pf' = [i \in IPs |-> SelectSeq(pf[i], LAMBDA t : clock + 1 - t < Win)]
   /\ Log([a |-> "Tick"])
-  /\ UNCHANGED <<fails, total, ban, pendUnban, bl, wl, pendUnbl, bucket, pc, hs, mu, pf, ptot, oblig, allow, blob, adm, viol, dev>>
+  /\ UNCHANGED <<fails, total, ban, pendUnban, bl, wl, pendUnbl, bucket, pc, hs, mu, ptot, oblig, allow, blob, adm, viol, dev>>
 
 Next == \/ \E p \in Procs : \/ \E i \in IPs, k \in {"Bad", "Good", "Anon"} : HsGate(p, i, k)
                             \/ HsCred(p) \/ HsBan(p)
@@ -289,7 +291,7 @@ Spec == Init /\ [][Next]_vars
 
 \* bounds of the explored graph (state constraint)
 Bounded == \A i \in IPs : /\ pendUnban[i] <= MaxPend /\ pendUnbl[i] <= MaxPend
-                          /\ Len(adm[i]) <= MaxAdm /\ Len(pf[i]) <= MaxTotal + 1
+                          /\ Len(adm[i]) <= MaxAdm
 
 \* ---- properties (C18) -----------------------------------------------------------------------
 TypeOK == /\ clock \in 0..MaxClock
